@@ -74,6 +74,9 @@ pub enum Strategy {
     /// rows still fold to the committed next layer; the proof declares 2^`0` partitions (the openings carry the
     /// honest Merkle paths, so nothing authenticates the forged rows)
     ForgedFirstLayer(u8),
+    /// commit to the function honestly, then to constant layers (all 0 / all 1) instead of the folded ones, and to the
+    /// matching constant remainder
+    ConstantTail(u8),
 }
 
 /// domain points of layer `depth`: offset^(k^depth) * (w^(k^depth))^i
@@ -179,7 +182,7 @@ where
         let (off, w, _) = layer_domain::<E::BaseField>(cfg, depth);
         let next = ref_fold(&ctx, &cur, cfg.k, off, w, &fold_alpha);
         layers.push(Layer { evals: cur, tree, rows });
-        cur = next;
+        cur = if let Strategy::ConstantTail(c) = strategy { vec![[*c as u128, 0, 0]; next.len()] } else { next };
     }
     // convention of the implementation (prover and verifier alike): the remainder is expressed in the
     // variable of the coset generator * <w_L>, i.e. the domain offset is NOT raised to k^L for the last
